@@ -215,12 +215,26 @@ pub fn new_tera(cfg: &Config) -> Tera {
         t.global_context().insert_value(k.clone(), v.to_value());
     }
     if cfg.custom {
+        register_custom(&mut t, false);
+    }
+    t
+}
+
+/// The simulator's callbacks; `via_from` takes the filter, function and test from another
+/// instance (`Tera::register_from`) instead of registering them one by one.
+pub fn register_custom(t: &mut Tera, via_from: bool) {
+    if via_from {
+        let mut other = Tera::default();
+        register_custom(&mut other, false);
+        // a name that exists on both sides must keep the receiver's version
+        other.register_filter("upper", sim_echo);
+        t.register_from(&other);
+    } else {
         t.register_filter("sim_echo", sim_echo);
         t.register_function("sim_fn", sim_fn);
         t.register_test("sim_test", sim_test);
-        t.set_escape_fn(sim_escape);
     }
-    t
+    t.set_escape_fn(sim_escape);
 }
 
 // ------------------------------------------------------------------------------------------------
